@@ -435,7 +435,28 @@ def decode(e):
         return e
     t = e.get('t')
     if t == 'nd':
-        return np.array(e['v'], dtype=e['dt']).reshape(e['shape'])
+        a = np.array(e['v'], dtype=e['dt']).reshape(e['shape'])
+        how = e.get('as')
+        if how is None:
+            return a
+        if how == 'F':
+            return np.asfortranarray(a)
+        if how == 'strided' and a.ndim >= 1:          # every second element of a wider buffer
+            b = np.zeros(a.shape[:-1] + (2 * a.shape[-1],), dtype=a.dtype)
+            b[..., ::2] = a
+            return b[..., ::2]
+        if how == 'rev' and a.ndim >= 1:              # negative stride, same values
+            return a[::-1].copy()[::-1]
+        if how == 'list':
+            return a.tolist()
+        if how == 'tuple':
+            return tuple(a.tolist()) if a.ndim == 1 else a.tolist()
+        if how == 'matrix' and a.ndim == 2:
+            return np.matrix(a)
+        if how == 'readonly':
+            a.setflags(write=False)
+            return a
+        return a
     if t == 'sp':
         import scipy.sparse
         return getattr(scipy.sparse, e['fmt'])(np.array(e['v'], dtype=e['dt']).reshape(e['shape']))
@@ -623,8 +644,25 @@ def _implied(assigns, lag_times, method, **kw):
     return implied_timescales(assigns, lag_times, method, **kw)
 
 
+def _partition(result_fields, lengths):
+    from enspara.cluster.util import ClusterResult
+    return ClusterResult(**result_fields).partition(lengths)
+
+
+def _ra_zeros_like(a):
+    from enspara import ra
+    return ra.zeros_like(a)
+
+
 ROUTINES = {
     # name: (dotted path or local adapter, uses the OpenMP kernels)
+    'entropy.Q_from_assignments': ('enspara.info_theory.entropy.Q_from_assignments', False),
+    'entropy.relative_entropy_per_state': ('enspara.info_theory.entropy.relative_entropy_per_state', False),
+    'entropy.energy_to_probability': ('enspara.info_theory.entropy.energy_to_probability', False),
+    'mutual_info.mi_matrix_serial': ('enspara.info_theory.mutual_info.mi_matrix_serial', False),
+    'mutual_info.deconvolute_network': ('enspara.info_theory.mutual_info.deconvolute_network', False),
+    'cluster.ClusterResult.partition': (_partition, False),
+    'ra.zeros_like': (_ra_zeros_like, False),
     'entropy.shannon_entropy': ('enspara.info_theory.entropy.shannon_entropy', False),
     'entropy.kl_divergence': ('enspara.info_theory.entropy.kl_divergence', False),
     'entropy.js_divergence': ('enspara.info_theory.entropy.js_divergence', False),
@@ -806,7 +844,66 @@ def g_relent(rng, big):
         out.append(('P-with-zeros', [N(P)], {'Q': N(Q)}))
         out.append(('subset-base-e', [N(P)], {'Q': N(Q), 'state_subset': N(np.arange(0, n, 2)), 'base': float(np.e)}))
     out.append(('given-populations', [N(P)], {'Q': N(Q), 'populations': N(_prob_vec(rng, n, 0))}))
+    a = _assigns(rng, 3, 40, n, True)
+    out.append(('Q-from-assignments', [N(P)], {'assignments': a, 'lag_time': 2, 'prior_counts': 0.25}))
+    out.append(('Q-from-assignments-transpose', [N(P)],
+                {'assignments': a, 'builder': FN('enspara.msm.builders.transpose')}))
     return out
+
+
+def g_qfa(rng, big):
+    out = []
+    for _ in range(2):
+        n = int(rng.integers(2, 6))
+        out.append(('default', [_assigns(rng, 3, 30, n, True)], {}))
+        out.append(('lag-builder-prior', [_assigns(rng, 3, 30, n, False)],
+                    {'n_states': n + 1, 'lag_time': 2, 'builder': FN('enspara.msm.builders.transpose'),
+                     'prior_counts': 0.5}))
+    return out
+
+
+def g_reps(rng, big):
+    out = []
+    for n in (2, int(rng.integers(3, 8))):
+        P, Q = _stoch(rng, n), _stoch(rng, n, 0.0)
+        out.append(('weights-scalar', [N(P)], {'Q': N(Q)}))
+        out.append(('weights-vector-subset-base', [N(P)], {'Q': N(Q), 'weights': N(_prob_vec(rng, n, 0)[:(n + 1) // 2]),
+                                                           'state_subset': N(np.arange(0, n, 2)), 'base': 10.0}))
+    return out
+
+
+def g_e2p(rng, big):
+    return [('default', [N(rng.normal(size=int(rng.integers(1, 30))))], {}),
+            ('kT', [N(rng.normal(size=int(rng.integers(1, 30))) * 5)], {'kT': 0.6}),
+            ('int-energies', [N(rng.integers(-5, 5, size=7))], {'kT': 1.0})]
+
+
+def g_mi_serial(rng, big):
+    out = []
+    for _ in range(2):
+        F, n, ntraj = int(rng.integers(1, 4)), int(rng.integers(2, 4)), int(rng.integers(1, 3))
+        Xs = [_states(rng, int(rng.integers(2, 30)), F, n) for _ in range(ntraj)]
+        out.append(('self', [Xs, Xs, [n] * F, [n] * F], {'normalize': bool(rng.integers(0, 2))}))
+    return out
+
+
+def g_deconv(rng, big):
+    return [('sym-%d' % n, [N(_sym_mi(rng, n) / (2.0 * n))], {}) for n in (1, 3, int(rng.integers(4, 9)))]
+
+
+def g_partition(rng, big):
+    out = []
+    for L in ([3, 3], [2, 5, 1], [4]):
+        n = sum(L)
+        f = {'center_indices': [int(x) for x in rng.integers(0, n, size=2)], 'distances': N(rng.random(n)),
+             'assignments': N(rng.integers(0, 2, size=n)), 'centers': [N(rng.random(2)), N(rng.random(2))]}
+        out.append(('lengths-%s' % '-'.join(map(str, L)), [f, L], {}))
+    return out
+
+
+def g_ra_zeros(rng, big):
+    return [('ragged', [RA(_ragged_rows(rng))], {}), ('float', [RA(_ragged_rows(rng), 'float64')], {}),
+            ('ndarray', [N(rng.random((2, 3)))], {})]
 
 
 def _jc(rng, f, s, empty_frac, dt):
@@ -847,7 +944,8 @@ def g_joint_counts(rng, big):
     out.append(('mixed-dtypes', [_states(rng, T, F, n, 'int16'), _states(rng, T, F, n, 'int64')], {}))
     out.append(('1d', [N(rng.integers(0, n, size=T + 1))], {}))
     out.append(('many-features', [_states(rng, 40, 9, 3)], {}))
-    out.append(('long-trajectory', [_states(rng, int(rng.integers(3000, 9000)), 6, 4, 'int32')], {}))
+    out.append(('long-trajectory', [RINT(int(rng.integers(0, 2 ** 31)), (int(rng.integers(3000, 9000)), 6), 0, 4, 'int32')],
+                {'n_x': 4}))
     return out
 
 
@@ -860,6 +958,8 @@ def g_mi_matrix(rng, big):
     # a state count larger than what is observed: empty rows / columns of every joint-count block
     Xs = [_states(rng, 20, 3, 2)]
     out.append(('unobserved-states', [Xs, Xs, N([4, 4, 4]), N([4, 4, 4])], {}))
+    out.append(('per-feature-state-counts-differ', [Xs, Xs, N([2, 3, 4]), N([4, 2, 3])], {}))
+    out.append(('state-counts-as-lists', [Xs, Xs, [2, 2, 3], [3, 2, 2]], {'normalize': True}))
     return out
 
 
@@ -875,6 +975,13 @@ def g_weighted_mi(rng, big):
         w2[0] = 1.0
         out.append(('zero-weights', [N(feats), N(w2)], {'normalize': False}))
         out.append(('spare-states', [N(feats), N(w / w.sum())], {'n_feature_states': N(np.full(F, n + 2))}))
+        out.append(('per-feature-state-counts-differ', [N(feats), N(w / w.sum())],
+                    {'n_feature_states': N(n + np.arange(F)), 'normalize': True}))
+    onehot = np.zeros(T, dtype=int)
+    onehot[0] = 1
+    out.append(('integer-weights-sum-1', [N(feats), N(onehot)], {}))
+    out.append(('integer-weights-unnormalised', [N(feats), N(rng.integers(0, 4, size=T) + onehot)], {}))
+    out.append(('list-weights', [N(feats), (w / w.sum()).tolist()], {}))
     return out
 
 
@@ -901,6 +1008,13 @@ def g_nmi(rng, big):
             ('H-given', [N(m)], {'H_marginal': N(rng.random(n) + 1.0)}),
             ('zero-offdiag', [N(np.diag(rng.random(n) + .5))], {}),
             ('asymmetric-rejected', [N(rng.random((n, n)))], {})]
+
+
+def g_nmi_apc(rng, big):
+    n = int(rng.integers(2, 8))
+    m = _sym_mi(rng, n)
+    return [('diag', [N(m)], {}), ('H-given', [N(m)], {'H_marginal': N(rng.random(n) + 1.0)}),
+            ('1x1', [N([[0.7]])], {})]
 
 
 def g_apc(rng, big):
@@ -936,6 +1050,9 @@ def g_builder(rng, big):
     for fmt in ('csr_matrix', 'coo_matrix', 'lil_matrix', 'csr_array'):
         out.append((fmt, [SP(_counts(rng, n, zero_rows=int(rng.integers(0, 2))), fmt)], {}))
     out.append(('sparse-prior', [SP(_counts(rng, n), 'csr_matrix')], {'prior_counts': 1}))
+    out.append(('asymmetric-prior-matrix', [N(C)], {'prior_counts': N(np.triu(rng.integers(0, 3, size=(n, n))) + 0.5)}))
+    out.append(('sparse-asymmetric-prior-no-eq', [SP(C, 'csr_matrix')],
+                {'prior_counts': N(np.tril(rng.integers(1, 3, size=(n, n)))), 'calculate_eq_probs': False}))
     out.append(('1x1', [N([[3]])], {}))
     out.append(('large', [N(_counts(rng, int(rng.integers(20, 40)), zero_rows=2))], {}))
     return out
@@ -949,11 +1066,15 @@ def g_mle(rng, big):
     out.append(('prior', [N(_counts(rng, 3))], {'prior_counts': 1}))
     out.append(('sparse', [SP(rng.integers(1, 9, size=(3, 3)), 'csr_matrix')], {}))
     out.append(('zero-row-rejected', [N(_counts(rng, 3, zero_rows=3))], {}))
+    out.append(('no-eq-probs', [N(rng.integers(1, 9, size=(3, 3)))], {'calculate_eq_probs': False}))
+    out.append(('asymmetric-prior-matrix', [N(_counts(rng, 3))], {'prior_counts': N(np.triu(np.ones((3, 3))) + 0.5)}))
     return out
 
 
 def g_prinz(rng, big):
-    return [('dense-%d' % n, [N(rng.integers(1, 12, size=(n, n)).astype(float))], {}) for n in (2, 3, 5)]
+    return [('dense-%d' % n, [N(rng.integers(1, 12, size=(n, n)).astype(float))], {}) for n in (2, 3, 5)] + \
+           [('loose-tol', [N(rng.integers(1, 12, size=(3, 3)).astype(float))], {'tol': 1e-3}),
+            ('max-iter-2', [N(rng.integers(1, 12, size=(4, 4)).astype(float))], {'max_iter': 2})]
 
 
 def _assigns(rng, nrows, maxlen, nstates, pad):
@@ -1014,6 +1135,8 @@ def g_implied(rng, big):
         a = _assigns(rng, int(rng.integers(2, 5)), 60, 3, True)
         out.append(('normalize', [a, [1, 2, int(rng.integers(3, 6))], FN('enspara.msm.builders.normalize')],
                     {'n_times': 2, 'trim': bool(rng.integers(0, 2))}))
+    out.append(('transpose-strided-window', [a, N([2, 3]), FN('enspara.msm.builders.transpose')],
+                {'sliding_window': False}))
     return out
 
 
@@ -1078,6 +1201,11 @@ def g_paths(rng, big):
     F, s, t = _netflux(rng, 6)
     out.append(('all-paths', [[s], [t], N(F)], {}))
     out.append(('ties', [[0], [3], N(np.array([[0, 1., 1., 0], [0, 0, 0, 1.], [0, 0, 0, 1.], [0, 0, 0, 0]]))], {}))
+    F, s_, t_ = _netflux(rng, 7)
+    out.append(('flux-cutoff-half', [[s_], [t_], N(F)], {'flux_cutoff': 0.5}))
+    out.append(('callable-remover', [[s_], [t_], N(F)],
+                {'remove_path': FN('enspara.tpt.path._remove_bottleneck'), 'num_paths': 4}))
+    out.append(('by-name-nd-ends', [], {'sources': N([s_]), 'sinks': N([t_]), 'net_flux': N(F), 'num_paths': 2}))
     return out
 
 
@@ -1140,6 +1268,8 @@ def g_kcenters(rng, big):
     X = _points(rng, 30, 2)
     out.append(('init-centers', [X, 'euclidean'], {'n_clusters': 4, 'init_centers': N(decode(X)[[3, 7]])}))
     out.append(('k-exceeds-n', [_points(rng, 3, 2), 'euclidean'], {'n_clusters': 6}))
+    out.append(('n_clusters-and-cutoff', [_points(rng, 40, 2), 'euclidean'], {'n_clusters': 5, 'dist_cutoff': 0.8}))
+    out.append(('callable-metric', [_points(rng, 20, 2), FN(LIBDIST + 'manhattan')], {'n_clusters': 3}))
     out.append(('int32-ties', [_points(rng, 25, 2, 'int32'), 'manhattan'], {'n_clusters': 4}))
     return out
 
@@ -1155,6 +1285,9 @@ def g_kmedoids(rng, big):
     pr = [int(x) for x in rng.permutation(20)[:3]]
     out.append(('given-centers-proposals', [X, 'euclidean'],
                 {'cluster_center_inds': ci, 'proposals': pr, 'n_iters': 2, 'random_state': 0}))
+    out.append(('2d-center-inds-X_lengths', [_points(rng, 6, 2), 'euclidean'],
+                {'cluster_center_inds': [[0, 1], [1, 0]], 'X_lengths': [3, 3], 'n_iters': 1, 'random_state': 3}))
+    out.append(('zero-iterations-rejected', [X, 'euclidean'], {'n_clusters': 2, 'n_iters': 0, 'random_state': 1}))
     out.append(('design-witness-F17', [N(np.array([[0.], [1.], [2.], [10.], [11.], [12.]])), 'euclidean'],
                 {'cluster_center_inds': [0, 3], 'proposals': [1, 4], 'n_iters': 1}))
     Xd = decode(X)
@@ -1172,6 +1305,9 @@ def g_hybrid(rng, big):
         out.append(('seeded', [_points(rng, n, d), 'euclidean'],
                     {'n_clusters': int(rng.integers(1, 5)), 'n_iters': int(rng.integers(0, 3)),
                      'random_state': int(rng.integers(0, 100))}))
+    X = _points(rng, 30, 2)
+    out.append(('cutoff-init-centers', [X, 'manhattan'],
+                {'dist_cutoff': 1.5, 'init_centers': N(decode(X)[[2, 9]]), 'n_iters': 1, 'random_state': 4}))
     return out
 
 
@@ -1189,10 +1325,11 @@ def g_dist(kind):
             out.append((dt, [X, y], {}))
         # enough work per thread for the 7- and 16-thread teams to really overlap
         n, d = int(rng.integers(4000, 12000)), int(rng.integers(8, 24))
+        sd = int(rng.integers(0, 2 ** 31))
         if kind == 'hamming':
-            out.append(('large-n', [N(rng.integers(0, 3, size=(n, d))), N(rng.integers(0, 3, size=d))], {}))
+            out.append(('large-n', [RINT(sd, (n, d), 0, 3, 'int64'), RINT(sd + 1, (d,), 0, 3, 'int64')], {}))
         else:
-            out.append(('large-n', [_points(rng, n, d), N(rng.normal(size=d))], {}))
+            out.append(('large-n', [RINT(sd, (n, d), -40, 41, 'float64'), RINT(sd + 1, (d,), -40, 41, 'float64')], {}))
         out.append(('no-rows', [N(np.zeros((0, 3)), dts[0]), N(np.zeros(3), dts[0])], {}))
         out.append(('dim-mismatch-rejected', [N(np.zeros((2, 3)), dts[0]), N(np.zeros(2), dts[0])], {}))
         return out
@@ -1224,6 +1361,7 @@ def g_ra_construct(rng, big):
     return [('rows', [[N(r) for r in rows]], {}),
             ('flat+lengths', [N(flat)], {'lengths': N([len(r) for r in rows])}),
             ('equal-lengths', [N(rng.integers(0, 5, size=(3, 4)))], {}),
+            ('flat+list-lengths', [N(flat)], {'lengths': [len(r) for r in rows]}),
             ('lists', [rows], {})]
 
 
@@ -1319,15 +1457,20 @@ def g_concat_trjs(rng, big):
             trjs.append({'t': 'trj', 'n_atoms': na, 'shape': [nf, na, 3],
                          'v': np.round(rng.normal(size=nf * na * 3), 3).tolist()})
         out.append(('in-memory', [trjs], {'n_procs': 2}))
+    out.append(('atom-selection', [trjs], {'atoms': 'index 0', 'n_procs': 2}))
     return out
 
 
 GENS = {
+    'entropy.Q_from_assignments': g_qfa, 'entropy.relative_entropy_per_state': g_reps,
+    'entropy.energy_to_probability': g_e2p, 'mutual_info.mi_matrix_serial': g_mi_serial,
+    'mutual_info.deconvolute_network': g_deconv, 'cluster.ClusterResult.partition': g_partition,
+    'ra.zeros_like': g_ra_zeros,
     'entropy.shannon_entropy': g_shannon, 'entropy.kl_divergence': g_kl, 'entropy.js_divergence': g_js,
     'entropy.relative_entropy_msm': g_relent, 'mutual_info.mutual_information': g_mi,
     'mutual_info.joint_counts': g_joint_counts, 'mutual_info.mi_matrix': g_mi_matrix,
     'mutual_info.weighted_mi': g_weighted_mi, 'mutual_info.channel_capacity_normalization': g_ccn,
-    'mutual_info.mi_to_nmi': g_nmi, 'mutual_info.mi_to_apc': g_apc, 'mutual_info.mi_to_nmi_apc': g_apc,
+    'mutual_info.mi_to_nmi': g_nmi, 'mutual_info.mi_to_apc': g_apc, 'mutual_info.mi_to_nmi_apc': g_nmi_apc,
     'libinfo.bincount2d': g_bincount2d, 'libinfo.matrix_bincount2d': g_mbincount,
     'builders.normalize': g_builder, 'builders.transpose': g_builder, 'builders.mle': g_mle,
     'builders._prinz_mle': g_prinz, 'msm.assigns_to_counts': g_a2c, 'msm.trim_disconnected': g_trim,
@@ -1371,17 +1514,22 @@ def poison_heap(val, reps=16):
     glibc's tcache/bins keep the next ones) and for 1024..8192-byte blocks (glibc bins)."""
     js = []
     for nbytes in range(8, 1024, 8):                     # 1 .. 127 doubles
-        js.extend(np.full(nbytes // 8, val) for _ in range(reps))
+        js.extend([np.full(nbytes // 8, val) for _ in range(reps)])
+    if reps < 16:                                        # quick tier: double-sized buckets only
+        del js
+        js = [np.full(n, val) for n in range(128, 1025, 16) for _ in range(2)]
+        del js
+        return
     pat4 = np.frombuffer(np.float64(val).tobytes(), dtype=np.uint32)[1]
     for nbytes in range(4, 1024, 8):                     # float32 / int32 sized blocks
-        js.extend(np.full(nbytes // 4, pat4, dtype=np.uint32) for _ in range(reps // 2))
+        js.extend([np.full(nbytes // 4, pat4, dtype=np.uint32) for _ in range(max(2, reps // 4))])
     pat1 = np.frombuffer(np.float64(val).tobytes(), dtype=np.uint8)[7]
-    for nbytes in list(range(1, 64)) + list(range(66, 256, 4)):   # bool / int8 / int16 sized blocks
-        js.extend(np.full(nbytes, pat1, dtype=np.uint8) for _ in range(reps // 2))
+    for nbytes in list(range(1, 64)) + list(range(66, 256, 8)):   # bool / int8 / int16 sized blocks
+        js.extend([np.full(nbytes, pat1, dtype=np.uint8) for _ in range(max(2, reps // 4))])
     del js
     js = []
-    for n in range(128, 1025, 2):                        # malloc-served: 128 .. 1024 doubles
-        js.extend(np.full(n, val) for _ in range(4))
+    for n in range(128, 1025, 4 if reps >= 32 else 8):   # malloc-served: 128 .. 1024 doubles
+        js.extend([np.full(n, val) for _ in range(3)])
     del js
 
 
@@ -1535,7 +1683,22 @@ def _short(out):
     return {'ok': _decode_canon(out['ok']), 'sha1': digest(out['ok'])}
 
 
+def light_perturbations(routine):
+    ps = [{'kind': 'repeat'}, {'kind': 'heap', 'fill': 'nan'}]
+    if ROUTINES[routine][1]:
+        ps += [{'kind': 'threads', 'n': 1}, {'kind': 'threads', 'n': 16}]
+    if poison_allocator() is not None:
+        ps += [{'kind': 'alloc', 'fill': 'nan'}, {'kind': 'alloc', 'fill': 'one'}]
+    return ps
+
+
 def perturbation_list(ctx_thorough, routine):
+    if routine in WORKERS:       # every call forks a process pool (about 1 s here)
+        kw, vals = WORKERS[routine]
+        ps = [{'kind': 'repeat'}] + [{'kind': 'workers', 'kw': kw, 'n': v} for v in vals]
+        if ctx_thorough:
+            ps += [{'kind': 'heap', 'fill': 'nan'}] + ([{'kind': 'alloc', 'fill': 'nan'}] if poison_allocator() else [])
+        return ps
     ps = [{'kind': 'repeat'}]
     ps += [{'kind': 'threads', 'n': k} for k in THREADS]
     ps += [{'kind': 'heap', 'fill': k} for k in POISONS]
@@ -1568,10 +1731,19 @@ def check_argset(ctx, routine, label, args, kwargs, reps=16, perturbations=None)
     """All in-process perturbations of one (routine, argument set).  Returns the baseline outcome."""
     case = {'routine': routine, 'label': label, 'args': args, 'kwargs': kwargs}
     base, before, after = call_once(routine, args, kwargs)
+    _outcome(routine, base)
+    _ran(ctx, routine, 'argument-snapshot')
     ctx.case({'routine': routine, 'args': args, 'kwargs': kwargs}, nontrivial='ok' in base,
-             tags=[routine, 'outcome=' + ('value' if 'ok' in base else base['error'])])
+             tags=[routine, 'outcome=' + ('value' if 'ok' in base else base['error'])] +
+                  (['family=' + label.split(':', 1)[0]] if label.startswith(('variant', 'corner')) else []))
     # (f) arguments unchanged unless documented
-    allowed = INPLACE.get(routine, {})
+    allowed = set(INPLACE.get(routine, {}))
+    try:
+        import inspect
+        names = [q.name for q in inspect.signature(resolve(routine)).parameters.values()]
+        allowed |= {names[i] for i in list(allowed) if isinstance(i, int) and i < len(names)}
+    except (TypeError, ValueError):
+        pass
     for i, (b, a) in enumerate(zip(before['args'], after['args'])):
         if b != a and i not in allowed:
             ctx.violation('%s modified its argument #%d in place (not documented)' % (routine, i),
@@ -1586,9 +1758,10 @@ def check_argset(ctx, routine, label, args, kwargs, reps=16, perturbations=None)
             return base
     # a caller-supplied output buffer is write-only: its previous content must not show in the result
     if routine == 'libdist.with_out' and 'ok' in base:
-        kind = args[0]['v'].rsplit('.', 1)[1]
-        ref, _, _ = call_once('libdist.' + kind, args[1:3], {})
-        ctx.tag('perturbation=out-content')
+        pos = args if args else [kwargs[k] for k in ('fn', 'X', 'y', 'out')]
+        kind = pos[0]['v'].rsplit('.', 1)[1]
+        ref, _, _ = call_once('libdist.' + kind, pos[1:3], {})
+        _ran(ctx, routine, 'out-content')
         if 'ok' not in ref or base['ok'][1] != ref['ok']:
             ctx.violation('libdist.%s(X, y, out=buf) depends on what buf held before the call' % kind,
                           dict(case, perturbation={'kind': 'out-content'}, baseline=_short(ref),
@@ -1596,7 +1769,7 @@ def check_argset(ctx, routine, label, args, kwargs, reps=16, perturbations=None)
             return base
     for p in (perturbations if perturbations is not None else perturbation_list(ctx.thorough, routine)):
         got, _, _ = run_perturbed(routine, args, kwargs, p, reps)
-        ctx.tag('perturbation=' + p['kind'])
+        _ran(ctx, routine, p['kind'])
         if got != base:
             ctx.violation('%s: result changed under perturbation %s (arguments identical)' % (routine, json.dumps(p)),
                           dict(case, perturbation=p, baseline=_short(base), perturbed=_short(got)))
@@ -1653,6 +1826,71 @@ def kernel_extremes(rng, thorough):
     return out
 
 
+def worker_jobs(rng, thorough):
+    """[(routine, kw, vals, sets, jobs)] for the worker-count sweep"""
+    plan = []
+    for routine, (kw, vals) in WORKERS.items():
+        sets = []
+        for _ in range(2 if thorough else 1):
+            sets += GENS[routine](rng, thorough)
+        jobs = []
+        for label, args, kwargs in sets:
+            for v in vals + [vals[0]]:                  # last one = plain repetition
+                jobs.append({'routine': routine, 'label': label, 'args': args, 'kwargs': dict(kwargs, **{kw: v})})
+        plan.append((routine, kw, vals, sets, jobs))
+    return plan
+
+
+def judge_workers(ctx, plan_item, outs):
+    routine, kw, vals, sets, jobs = plan_item
+    per = len(vals) + 1
+    for i, (label, args, kwargs) in enumerate(sets):
+        group = outs[i * per:(i + 1) * per]
+        keys = [o.get('sha1', o.get('error')) for o in group]
+        _outcome(routine, {'ok': 1} if 'sha1' in group[0] else {'error': group[0].get('error')})
+        ctx.case({'routine': routine, 'args': args, 'kwargs': kwargs}, nontrivial='sha1' in group[0],
+                 tags=[routine, 'outcome=' + ('value' if 'sha1' in group[0] else str(group[0].get('error')))])
+        _ran(ctx, routine, 'workers', len(vals))
+        _ran(ctx, routine, 'repeat')
+        if len(set(keys)) != 1:
+            ctx.violation('%s: result depends on %s (values %s, then %s again)' % (routine, kw, vals, vals[0]),
+                          {'routine': routine, 'label': label, 'args': args, 'kwargs': kwargs,
+                           'perturbation': {'kind': 'workers', 'kw': kw, 'values': vals},
+                           'results': [o.get('short', o) for o in group]})
+
+
+def check_workers(ctx, rng, thorough):
+    """(e) worker-count sweep.  The pools are forked, and forking this process after its OpenMP teams exist
+    can deadlock the children, so the sweep runs in a fresh interpreter (as a user's script would)."""
+    for routine, (kw, vals) in WORKERS.items():
+        sets = []
+        for _ in range(2 if thorough else 1):
+            sets += GENS[routine](rng, thorough)
+        jobs = []
+        for label, args, kwargs in sets:
+            for v in vals + [vals[0]]:                  # last one = plain repetition
+                jobs.append({'routine': routine, 'label': label, 'args': args, 'kwargs': dict(kwargs, **{kw: v})})
+        try:
+            outs = run_subprocess(jobs, None, timeout=240)
+        except subprocess.TimeoutExpired:
+            ctx.skip('worker-count sweep of %s did not finish in 240 s (not evaluated)' % routine)
+            continue
+        per = len(vals) + 1
+        for i, (label, args, kwargs) in enumerate(sets):
+            group = outs[i * per:(i + 1) * per]
+            keys = [o.get('sha1', o.get('error')) for o in group]
+            _outcome(routine, {'ok': 1} if 'sha1' in group[0] else {'error': group[0].get('error')})
+            ctx.case({'routine': routine, 'args': args, 'kwargs': kwargs}, nontrivial='sha1' in group[0],
+                     tags=[routine, 'outcome=' + ('value' if 'sha1' in group[0] else str(group[0].get('error')))])
+            _ran(ctx, routine, 'workers', len(vals))
+            _ran(ctx, routine, 'repeat')
+            if len(set(keys)) != 1:
+                ctx.violation('%s: result depends on %s (values %s, then %s again)' % (routine, kw, vals, vals[0]),
+                              {'routine': routine, 'label': label, 'args': args, 'kwargs': kwargs,
+                               'perturbation': {'kind': 'workers', 'kw': kw, 'values': vals},
+                               'results': [o.get('short', o) for o in group]})
+
+
 def check_threads(ctx, routine, label, args, kwargs, repeats=3):
     """threads 1/2/4/8/16, each `repeats` times, bit-for-bit against the 1-thread result"""
     case = {'routine': routine, 'label': label, 'args': args, 'kwargs': kwargs}
@@ -1662,7 +1900,7 @@ def check_threads(ctx, routine, label, args, kwargs, repeats=3):
     for rep in range(repeats):
         for k in KERNEL_THREADS:
             got, _, _ = call_once(routine, args, kwargs, threads=k)
-            ctx.tag('perturbation=threads-extreme')
+            _ran(ctx, routine, 'threads-extreme')
             if got != ref:
                 ctx.violation('%s: result with %d OpenMP threads differs from the 1-thread result (arguments '
                               'identical, integer-valued data, repetition %d)' % (routine, k, rep),
@@ -1673,27 +1911,333 @@ def check_threads(ctx, routine, label, args, kwargs, repeats=3):
     return True
 
 
+
+# --------------------------------------------------------------------------------------
+# blind-spot families: presentation of every argument (class 2), object reuse and call
+# history (class 5), arguments by name (class 6)
+# --------------------------------------------------------------------------------------
+
+PMATRIX = {}          # routine -> {perturbation kind: calls}: reported in the evidence
+OUTCOMES = {}         # routine -> {'value': n, 'error': n}
+
+SPARSE_OK = {'builders.normalize', 'builders.transpose', 'builders.mle', 'msm.trim_disconnected',
+             'msm.eigenspectrum', 'msm.eq_probs', 'tpt.committors', 'tpt.mfpts', 'tpt.reactive_fluxes',
+             'tpt.net_fluxes', 'tpt.reactive_populations', 'tpt.net_fluxes+paths'}
+
+
+def _ran(ctx, routine, kind, k=1):
+    ctx.tag('perturbation=' + kind, k)
+    d = PMATRIX.setdefault(routine, {})
+    d[kind] = d.get(kind, 0) + k
+
+
+def _outcome(routine, out):
+    d = OUTCOMES.setdefault(routine, {'value': 0, 'error': 0})
+    d['value' if 'ok' in out else 'error'] += 1
+
+
+def _enc_paths(e, path=()):
+    """paths of every array-like encoding inside an argument structure"""
+    if isinstance(e, list):
+        for i, x in enumerate(e):
+            yield from _enc_paths(x, path + (i,))
+    elif isinstance(e, dict):
+        if e.get('t') in ('nd', 'sp', 'ra'):
+            yield path
+        elif e.get('t') == 'tuple':
+            yield from _enc_paths(e['v'], path + ('v',))
+        elif e.get('t') is None:
+            for k, v in e.items():
+                yield from _enc_paths(v, path + (k,))
+
+
+def _get(e, path):
+    for k in path:
+        e = e[k]
+    return e
+
+
+def _set(e, path, v):
+    e = json.loads(json.dumps(e))
+    cur = e
+    for k in path[:-1]:
+        cur = cur[k]
+    cur[path[-1]] = v
+    return e
+
+
+def _presentations(enc, routine):
+    """other ways of handing over the same values"""
+    t = enc['t']
+    outs = []
+    if t == 'nd' and 'as' not in enc:
+        shape, dt = enc['shape'], np.dtype(enc['dt'])
+        nd = len(shape)
+        if nd >= 2:
+            outs.append(('F-order', dict(enc, **{'as': 'F'})))
+        if nd >= 1 and all(shape):
+            outs += [('strided', dict(enc, **{'as': 'strided'})), ('reversed-view', dict(enc, **{'as': 'rev'})),
+                     ('list', dict(enc, **{'as': 'list'})), ('read-only', dict(enc, **{'as': 'readonly'}))]
+        if nd == 1:
+            outs.append(('tuple', dict(enc, **{'as': 'tuple'})))
+        if nd == 2:
+            outs.append(('np.matrix', dict(enc, **{'as': 'matrix'})))
+        v = np.array(enc['v'], dtype=dt) if enc['v'] else np.zeros(0, dtype=dt)
+        if dt.kind in 'iu' and v.size:
+            for cand in ('int32', 'int16', 'int8', 'uint8', 'uint16', 'int64'):
+                ii = np.iinfo(cand)
+                if cand != dt.name and v.min() >= ii.min and v.max() <= ii.max:
+                    outs.append((cand, dict(enc, dt=cand)))
+            outs.append(('int-as-float64', dict(enc, dt='float64')))
+        if dt.kind == 'f':
+            if dt.name != 'float32':
+                outs.append(('float32', dict(enc, dt='float32')))
+            if v.size and np.all(v == np.round(v)) and np.all(np.abs(v) < 2 ** 31):
+                outs.append(('integral-float-as-int64', dict(enc, dt='int64', v=[int(x) for x in v.ravel()])))
+        if nd == 2 and shape[0] == shape[1] and routine in SPARSE_OK:
+            for fmt in ('csr_matrix', 'csc_matrix', 'coo_matrix', 'lil_matrix', 'csr_array'):
+                outs.append((fmt, dict(enc, t='sp', fmt=fmt)))
+    elif t == 'sp':
+        for fmt in ('csr_matrix', 'csc_matrix', 'coo_matrix', 'lil_matrix', 'dok_matrix', 'csc_array'):
+            if fmt != enc['fmt']:
+                outs.append((fmt, dict(enc, fmt=fmt)))
+        outs.append(('dense', {k: v for k, v in dict(enc, t='nd').items() if k != 'fmt'}))
+    elif t == 'ra':
+        for cand in ('int32', 'float64', 'int8'):
+            if cand != enc['dt'] and enc['dt'] != 'bool':
+                flat = [x for r in enc['rows'] for x in r]
+                if cand.startswith('float') or not flat or (min(flat) >= -128 and max(flat) <= 127 and
+                                                            all(float(x).is_integer() for x in flat)):
+                    outs.append(('ra-' + cand, dict(enc, dt=cand)))
+    return outs
+
+
+def argument_variants(rng, routine, args, kwargs, k):
+    """up to k variants of one argument set, each changing the presentation of ONE argument
+    (main or secondary, nested ones included), plus one variant with all arguments given by name"""
+    both = {'a': args, 'k': kwargs}
+    paths = list(_enc_paths(both))
+    out = []
+    cands = []
+    for pth in paths:
+        for name, enc2 in _presentations(_get(both, pth), routine):
+            cands.append((pth, name, enc2))
+    for idx in rng.permutation(len(cands))[:k]:
+        pth, name, enc2 = cands[int(idx)]
+        b2 = _set(both, pth, enc2)
+        where = ('arg%s' % '.'.join(map(str, pth[1:]))) if pth[0] == 'a' else '.'.join(map(str, pth[1:]))
+        out.append(('%s:%s' % (where, name), b2['a'], b2['k']))
+    try:
+        import inspect
+        sig = inspect.signature(resolve(routine))
+        params = [p for p in sig.parameters.values()]
+        if args and all(p.kind in (p.POSITIONAL_OR_KEYWORD, p.KEYWORD_ONLY, p.VAR_KEYWORD) for p in params):
+            names = [p.name for p in params if p.kind == p.POSITIONAL_OR_KEYWORD][:len(args)]
+            if len(names) == len(args) and not set(names) & set(kwargs):
+                out.append(('all-by-name', [], dict(kwargs, **dict(zip(names, args)))))
+    except (TypeError, ValueError):
+        pass
+    return out
+
+
+def _same_shape_other_values(e):
+    """same shapes, dtypes and value ranges, different values (rolled by one position)"""
+    if isinstance(e, list):
+        return [_same_shape_other_values(x) for x in e]
+    if isinstance(e, dict):
+        t = e.get('t')
+        if t in ('nd', 'sp'):
+            v = list(e['v'])
+            return dict(e, v=v[1:] + v[:1]) if len(v) > 1 else e
+        if t == 'ra':
+            flat = [x for r in e['rows'] for x in r]
+            flat = flat[1:] + flat[:1]
+            rows, i = [], 0
+            for r in e['rows']:
+                rows.append(flat[i:i + len(r)])
+                i += len(r)
+            return dict(e, rows=rows)
+        if t == 'tuple':
+            return dict(e, v=_same_shape_other_values(e['v']))
+        if t is None:
+            return {k: _same_shape_other_values(v) for k, v in e.items()}
+    return e
+
+
+def _plain_call(fn, a, kw, routine, kind, ctx):
+    _ran(ctx, routine, kind)
+    with warnings.catch_warnings(), np.errstate(all='ignore'):
+        warnings.simplefilter('ignore')
+        try:
+            r = fn(*a, **kw)
+            return r, {'ok': canon_res(r)}
+        except Exception as e:  # noqa
+            return None, {'error': type(e).__name__}
+
+
+# warm starts: routine -> f(result, args, kwargs) -> (next routine, args, kwargs) built from the RESULT OBJECT
+def _fb_kmedoids(r, a, kw):
+    kw2 = {k: v for k, v in kw.items() if k not in ('n_clusters', 'proposals')}
+    kw2.update(assignments=r.assignments, distances=r.distances, cluster_center_inds=r.center_indices)
+    return 'cluster.kmedoids', a, kw2
+
+
+FEEDBACK = {
+    'cluster.kmedoids': _fb_kmedoids,
+    'cluster.kcenters': lambda r, a, kw: ('cluster.kcenters', a, dict(kw, init_centers=r.centers)),
+    'cluster.hybrid': lambda r, a, kw: ('cluster.hybrid', a, dict(kw, init_centers=r.centers)),
+    'cluster.assign_to_nearest_center': lambda r, a, kw: ('cluster.find_cluster_centers', [r[0], r[1]], {}),
+    'builders.normalize': lambda r, a, kw: ('builders.normalize', [r[0]], kw),
+    'builders.transpose': lambda r, a, kw: ('builders.transpose', [r[0]], kw),
+    'builders.mle': lambda r, a, kw: ('builders.mle', [r[0]], kw),
+    'msm.trim_disconnected': lambda r, a, kw: ('msm.trim_disconnected', [r[1]], kw),
+    'msm.eq_probs': lambda r, a, kw: ('tpt.mfpts', [a[0]], {'populations': r}),
+    'msm.assigns_to_counts': lambda r, a, kw: ('builders.transpose', [r], {}),
+    'mutual_info.joint_counts': lambda r, a, kw: ('mutual_info.mutual_information', [r], {}),
+    'mutual_info.mutual_information': lambda r, a, kw: ('mutual_info.channel_capacity_normalization', [r, 2, 2], {}),
+    'mutual_info.mi_to_apc': lambda r, a, kw: ('mutual_info.mi_to_apc', [r], {}),
+    'tpt.net_fluxes': lambda r, a, kw: ('tpt.paths', [a[1], a[2], r], {'num_paths': 3}),
+    'tpt.reactive_fluxes': lambda r, a, kw: ('tpt.top_path', [a[1], a[2], r], {}),
+    'ra.binop': lambda r, a, kw: ('ra.binop', [r, a[1], a[2]], {}),
+    'ra.getitem': lambda r, a, kw: ('ra.unop', [r, 'flatten'], {}),
+    'ra.construct': lambda r, a, kw: ('ra.binop', [r, '__add__', r], {}),
+    'libdist.euclidean': lambda r, a, kw: ('cluster.find_cluster_centers', [np.zeros(len(r), dtype=int), r], {}),
+}
+
+
+def check_history(ctx, routine, label, args, kwargs):
+    """class 5: same argument objects twice, x / y / x with equal shapes, an id()-recycling sequence,
+    results of earlier calls must survive later calls, warm starts from a result object."""
+    case = {'routine': routine, 'label': label, 'args': args, 'kwargs': kwargs}
+    fn = resolve(routine)
+    inplace = routine in INPLACE
+
+    def bad(what, kind, **extra):
+        ctx.violation('%s: %s' % (routine, what), dict(case, perturbation={'kind': kind}, **extra))
+        return False
+
+    # (a) the same argument objects, twice
+    a, kw = decode(args), decode(kwargs)
+    before = snap([a, kw])
+    r1, c1 = _plain_call(fn, a, kw, routine, 'same-objects-twice', ctx)
+    ctx.case({'routine': routine, 'args': args, 'kwargs': kwargs, 'family': 'history'}, nontrivial='ok' in c1,
+             tags=[routine, 'family=history'])
+    r1b, c1b = _plain_call(fn, a, kw, routine, 'same-objects-twice', ctx)
+    if not inplace:
+        if c1b != c1:
+            return bad('second call with the SAME argument objects returned a different result',
+                       'same-objects-twice', baseline=_short(c1), perturbed=_short(c1b))
+        if snap([a, kw]) != before:
+            return bad('arguments differ after two calls with the same objects', 'same-objects-twice')
+        if 'ok' in c1 and canon_res(r1) != c1['ok']:
+            return bad('the result of the first call changed when the routine was called again',
+                       'result-overwritten-by-later-call', baseline=_short(c1), perturbed=_short({'ok': canon_res(r1)}))
+    # (c) x, y (same shapes, other values), x again; the first results stay alive meanwhile
+    yargs, ykw = _same_shape_other_values(args), _same_shape_other_values(kwargs)
+    ax, kx = decode(args), decode(kwargs)
+    rx, cx = _plain_call(fn, ax, kx, routine, 'x-y-x', ctx)
+    ay, ky = decode(yargs), decode(ykw)
+    ry, cy = _plain_call(fn, ay, ky, routine, 'x-y-x', ctx)
+    if not inplace and 'ok' in cx and canon_res(rx) != cx['ok']:
+        return bad('the result returned for x changed after the routine was called with another argument of the '
+                   'same shape (a view of internal state?)', 'result-overwritten-by-later-call',
+                   baseline=_short(cx), perturbed=_short({'ok': canon_res(rx)}), other_args=yargs, other_kwargs=ykw)
+    rx2, cx2 = _plain_call(fn, decode(args), decode(kwargs), routine, 'x-y-x', ctx)
+    if cx2 != cx or (not inplace and cx != c1):
+        return bad('A(x), A(y), A(x): the two results for x differ', 'x-y-x', baseline=_short(cx),
+                   perturbed=_short(cx2), other_args=yargs, other_kwargs=ykw)
+    # id() recycling: drop x, rebuild y (its objects tend to reuse x's addresses), result for y must not move
+    del ax, kx, rx, rx2, ay, ky
+    ry2, cy2 = _plain_call(fn, decode(yargs), decode(ykw), routine, 'id-recycling', ctx)
+    if cy2 != cy:
+        return bad('result for y changed once the objects of an earlier call had been freed (state keyed by '
+                   'id()?)', 'id-recycling', baseline=_short(cy), perturbed=_short(cy2),
+                   other_args=yargs, other_kwargs=ykw)
+    # (b) warm start: the result object itself becomes the next input
+    if routine in FEEDBACK and 'ok' in c1 and not inplace:
+        try:
+            a0, k0 = decode(args), decode(kwargs)
+            res, _ = _plain_call(fn, a0, k0, routine, 'warm-start', ctx)
+            nxt, a2, k2 = FEEDBACK[routine](res, a0, k0)
+        except Exception:  # noqa  (result not of the expected form, e.g. sparse)
+            return True
+        s_res = snap(res) if not hasattr(res, '_fields') else snap(list(res))
+        f2 = resolve(nxt)
+        w1, cw1 = _plain_call(f2, a2, k2, nxt, 'warm-start', ctx)
+        s_res2 = snap(res) if not hasattr(res, '_fields') else snap(list(res))
+        if s_res2 != s_res and nxt not in INPLACE:
+            return bad('%s modified the result of %s that was passed to it as input' % (nxt, routine), 'warm-start',
+                       before=_decode_canon(s_res), after=_decode_canon(s_res2))
+        # an independent run of the same pipeline
+        a0, k0 = decode(args), decode(kwargs)
+        res_b, _ = _plain_call(fn, a0, k0, routine, 'warm-start', ctx)
+        nxt, a2, k2 = FEEDBACK[routine](res_b, a0, k0)
+        w2, cw2 = _plain_call(f2, a2, k2, nxt, 'warm-start', ctx)
+        if cw2 != cw1:
+            return bad('the pipeline %s -> %s gave two different results on equal inputs' % (routine, nxt),
+                       'warm-start', baseline=_short(cw1), perturbed=_short(cw2))
+        # and once more from the SAME result object (in-place corruption shows on the second use)
+        w3, cw3 = _plain_call(f2, a2, k2, nxt, 'warm-start', ctx)
+        if cw3 != cw2:
+            return bad('%s called twice on the same result object of %s gave different results' % (nxt, routine),
+                       'warm-start', baseline=_short(cw2), perturbed=_short(cw3))
+    return True
+
+
+def public_api_audit(repo_dir):
+    """public functions of the modules behind the API table that the table does not drive"""
+    mods = ['info_theory/entropy.py', 'info_theory/mutual_info.py', 'msm/builders.py', 'msm/transition_matrices.py',
+            'msm/timescales.py', 'tpt/core.py', 'tpt/tpt.py', 'tpt/path.py', 'cluster/util.py',
+            'cluster/kcenters.py', 'cluster/kmedoids.py', 'cluster/hybrid.py', 'ra/ra.py']
+    driven = set()
+    for name, (target, _) in ROUTINES.items():
+        driven.add(target.rsplit('.', 1)[1] if isinstance(target, str) else name.split('.')[-1])
+    driven |= {'where', 'zeros_like', 'partition', 'paths', 'eq_probs', 'implied_timescales', 'euclidean',
+               'manhattan', 'hamming'}
+    outside = {  # reviewed: file/process I/O (C15), MPI entry points (C14), CLI helpers, validation-only
+        'save', 'load', 'load_frames', 'expand_files', 'load_features', 'load_trajectories', 'load_asymm_frames',
+        'load_trjs_or_features', 'write_centers_indices', 'write_centers',
+        'write_assignments_and_distances_with_reassign', 'compute_batches', 'determine_batch_size', 'batch_reassign',
+        'reassign', 'kcenters_mpi', 'ctr_ids_mpi', 'check_features_states', 'calc_imp_times'}
+    missing = []
+    for m in mods:
+        p = os.path.join(repo_dir, 'enspara', m)
+        try:
+            with open(p) as f:
+                tree = ast.parse(f.read())
+        except (OSError, SyntaxError):
+            missing.append(m + ':<unreadable>')
+            continue
+        for node in tree.body:
+            if isinstance(node, ast.FunctionDef) and not node.name.startswith('_'):
+                if node.name not in driven and node.name not in outside:
+                    missing.append('%s:%s' % (m, node.name))
+    return missing
+
+
 # ---- (d) MALLOC_PERTURB_ subprocess ---------------------------------------------------
 
 def _worker():
     """stdin: JSON list of {routine,args,kwargs}; stdout: JSON list of outcome digests."""
     jobs = json.load(sys.stdin)
-    outs = []
-    for j in jobs:
+    outs = [None] * len(jobs)
+    for i in reversed(range(len(jobs))):      # opposite order to the parent: state that survives between calls
+        j = jobs[i]                           # (memo by shape, caches) meets the inputs in another history
         out, _, _ = call_once(j['routine'], j['args'], j['kwargs'])
-        outs.append({'error': out['error']} if 'error' in out else {'sha1': digest(out['ok']), 'short': _short(out)})
+        outs[i] = {'error': out['error']} if 'error' in out else {'sha1': digest(out['ok']), 'short': _short(out)}
     sys.stdout.write('\n@@C19@@' + json.dumps(outs) + '@@END@@\n')
     sys.stdout.flush()
 
 
-def run_subprocess(jobs, perturb):
+def run_subprocess(jobs, perturb, timeout=1500):
     env = dict(os.environ)
-    env['MALLOC_PERTURB_'] = str(perturb)
+    if perturb is not None:
+        env['MALLOC_PERTURB_'] = str(perturb)
     env['OMP_WAIT_POLICY'] = 'PASSIVE'
     here = os.path.dirname(os.path.dirname(os.path.abspath(__file__)))
     env['PYTHONPATH'] = os.pathsep.join([here, env.get('PYTHONPATH', '')])
     r = subprocess.run([sys.executable, '-c', 'from props import c19; c19._worker()'],
-                       input=json.dumps(jobs), capture_output=True, text=True, env=env, timeout=1500)
+                       input=json.dumps(jobs), capture_output=True, text=True, env=env, timeout=timeout)
     if r.returncode != 0 or '@@C19@@' not in r.stdout:
         raise RuntimeError('C19 subprocess failed (MALLOC_PERTURB_=%s): %s' % (perturb, r.stderr[-1500:]))
     return json.loads(r.stdout.split('@@C19@@')[-1].split('@@END@@')[0])
@@ -1807,7 +2351,7 @@ def model_correspondence(ctx):
                 ctx.disagreement('Model.Masked.maskedApply vs numpy on a shape mismatch', dict(req, model=r))
         elif kind == 'entropy':
             p = real
-            poison_heap(float('nan'), 8)
+            poison_heap(float('nan'), 6)
             got = float(entropy.shannon_entropy(p.copy(), normalize=False))
             want = r.get('ok')
             if want is None or not math.isclose(got, float(_unfr(want)), rel_tol=1e-12, abs_tol=1e-12):
@@ -1901,16 +2445,38 @@ def run(ctx):
     bad, targets = _source_obligation_targets()
     if bad:
         ctx.note('rejected_source_sites', bad)
-    reps = 16 if not ctx.thorough else 32
-    rounds = ctx.n(2, 8)
+    reps = 6 if not ctx.thorough else 32
+    rounds = ctx.n(1, 6)
     jobs = []
-    order = sorted(ROUTINES)
+    order = [r for r in sorted(ROUTINES) if r not in WORKERS]
+    wplan = worker_jobs(rng, ctx.thorough)
+    nvar = ctx.n(2, 5)
+    nhist = ctx.n(4, 100)
     for rd in range(rounds):
         for routine in order:
-            for label, args, kwargs in GENS[routine](rng, ctx.thorough and rd % 2 == 1):
-                check_argset(ctx, routine, label, args, kwargs, reps=reps)
+            sets = GENS[routine](rng, ctx.thorough and rd % 2 == 1)
+            for label, args, kwargs in sets:
+                b = check_argset(ctx, routine, label, args, kwargs, reps=reps)
                 if len(jobs) < 4000 and len(json.dumps(args)) < 200000:
-                    jobs.append({'routine': routine, 'label': label, 'args': args, 'kwargs': kwargs})
+                    jobs.append({'routine': routine, 'label': label, 'args': args, 'kwargs': kwargs, '_base': b})
+            # class 2 / 6: every argument in another dtype / container / layout, and all arguments by name
+            picks = [sets[int(i)] for i in rng.permutation(len(sets))[:ctx.n(2, 8)]]
+            for label, args, kwargs in picks:
+                if len(json.dumps(args)) > 200000:
+                    continue
+                if routine in WORKERS:
+                    continue
+                for vname, a2, k2 in argument_variants(rng, routine, args, kwargs, nvar):
+                    b = check_argset(ctx, routine, 'variant:%s:%s' % (label, vname), a2, k2, reps=reps,
+                                     perturbations=None if ctx.thorough else light_perturbations(routine))
+                    ctx.tag('variant=' + vname.split(':')[-1])
+                    if len(jobs) < 4000:
+                        jobs.append({'routine': routine, 'label': 'variant:%s:%s' % (label, vname), 'args': a2,
+                                     'kwargs': k2, '_base': b})
+            # class 5: object reuse and call history
+            for label, args, kwargs in [sets[int(i)] for i in rng.permutation(len(sets))[:nhist]]:
+                if len(json.dumps(args)) < 200000 and routine not in WORKERS:
+                    check_history(ctx, routine, label, args, kwargs)
     # compiled kernels at extreme shapes under every team size
     for rd in range(ctx.n(1, 3)):
         for routine, label, args, kwargs in kernel_extremes(rng, ctx.thorough):
@@ -1923,22 +2489,57 @@ def run(ctx):
                              perturbations=[{'kind': 'heap', 'fill': k} for k in POISONS] +
                              ([{'kind': 'alloc', 'fill': k} for k in ALLOC_PATTERNS] if poison_allocator() else []))
                 ctx.tag('targeted-search')
-    # (d) fresh processes whose malloc perturbs every block
-    if ctx.thorough:
-        base = [call_once(j['routine'], j['args'], j['kwargs'])[0] for j in jobs]
-        for perturb in (1, 85, 170):
-            outs = run_subprocess(jobs, perturb)
-            ctx.tag('perturbation=malloc_perturb', len(outs))
+    # (d) fresh processes whose malloc perturbs every block, meeting the inputs in the opposite order
+    jobs = [j for j in jobs if j['routine'] not in WORKERS]
+    if not ctx.thorough:
+        jobs = [j for j in jobs if len(json.dumps(j['args'])) < 20000]
+        keep, per = [], {}
+        for i in rng.permutation(len(jobs)):          # three argument sets of every routine
+            r = jobs[int(i)]['routine']
+            if per.get(r, 0) < 3:
+                per[r] = per.get(r, 0) + 1
+                keep.append(int(i))
+        jobs = [jobs[i] for i in sorted(keep)]
+    base = [j.pop('_base') for j in jobs]
+    # (e) the worker-count sweep forks process pools; forking THIS process after its OpenMP teams exist can
+    # deadlock the children, so it runs in the fresh interpreter, before any kernel (the worker walks the job
+    # list backwards, the pool jobs are appended last)
+    wjobs = [j for item in wplan for j in item[4]]
+    for rnd, perturb in enumerate((1, 85, 170) if ctx.thorough else (None,)):
+        if True:
+            try:
+                outs_all = run_subprocess(jobs + (wjobs if rnd == 0 else []), perturb,
+                                          timeout=1500 if ctx.thorough else 300)
+            except subprocess.TimeoutExpired:
+                ctx.skip('fresh-process run (MALLOC_PERTURB_=%s) did not finish in time: not evaluated' % perturb)
+                continue
+            outs = outs_all[:len(jobs)]
+            if rnd == 0:
+                k = len(jobs)
+                for item in wplan:
+                    judge_workers(ctx, item, outs_all[k:k + len(item[4])])
+                    k += len(item[4])
+            for j in jobs:
+                _ran(ctx, j['routine'], 'fresh-process-malloc-perturb-reverse-order')
             for j, b, o in zip(jobs, base, outs):
                 same = (b.get('error') == o.get('error')) if ('error' in b or 'error' in o) \
                     else digest(b['ok']) == o['sha1']
                 if not same:
-                    ctx.violation('%s: result in a fresh process with MALLOC_PERTURB_=%d differs from the in-process '
-                                  'result' % (j['routine'], perturb),
+                    ctx.violation('%s: result in a fresh process (MALLOC_PERTURB_=%s, calls in the opposite order) '
+                                  'differs from the in-process result' % (j['routine'], perturb),
                                   dict(j, perturbation={'kind': 'malloc_perturb', 'value': perturb},
                                        baseline=_short(b), perturbed=o.get('short', o)))
                     break
     ctx.note('routines', len(ROUTINES))
+    ctx.note('perturbations_by_routine', {r: dict(sorted(PMATRIX.get(r, {}).items())) for r in sorted(ROUTINES)})
+    ctx.note('outcomes_by_routine', {r: OUTCOMES.get(r, {}) for r in sorted(ROUTINES)})
+    import stage as _stage
+    ctx.note('public_functions_not_in_api_table', public_api_audit(_stage.REPO))
+    dead = [r for r in sorted(ROUTINES) if OUTCOMES.get(r, {}).get('value', 0) == 0]
+    if dead:
+        # a routine of the table that no longer returns a value for ANY generated input has silently
+        # dropped out of the check (renamed argument, changed signature, ...): that is harness trouble
+        raise RuntimeError('API table routines without a single successful call: %s' % dead)
     ctx.note('heap_poison_reps', reps)
 
 
@@ -1964,6 +2565,13 @@ def replay(ctx, case):
             else digest(base['ok']) == o['sha1']
         if not same:
             ctx.violation('%s: result under MALLOC_PERTURB_=%s differs' % (routine, p['value']), case)
+        return
+    if routine in WORKERS:
+        kw, vals = WORKERS[routine]
+        outs = run_subprocess([{'routine': routine, 'args': args, 'kwargs': dict(kwargs, **{kw: v})}
+                               for v in vals + [vals[0]]], None, timeout=240)
+        if len({o.get('sha1', o.get('error')) for o in outs}) != 1:
+            ctx.violation('%s: result depends on %s' % (routine, kw), case)
         return
     if p.get('kind') == 'threads-extreme':
         check_threads(ctx, routine, case.get('label', 'replay'), args, kwargs, repeats=5)
